@@ -106,6 +106,10 @@ type Machine struct {
 	NTrivial, NAsserts               int
 	Trace2                           bool
 	holdDepth                        int
+	approxMemo, approxBody           map[string]T
+	approxList                       map[string][]approxRec
+	divList                          []divRec
+	appendDepth                      int
 	SymFrom, SymTo                   int    // steps [SymFrom,SymTo) choose the move by a solver variable, the others follow Policy
 	Policy                           string // baseline scheduling policy
 	Progress                         func(step, enumerated, live, alts, gors int)
@@ -139,7 +143,7 @@ func NewMachine(prog *ssa.Program, intMode bool) *Machine {
 		fnInfos: map[*ssa.Function]*FnInfo{}, globals: map[*ssa.Global]*Object{}, synthG: map[string]Value{},
 		initDone: map[*ssa.Package]bool{}, Intrinsics: map[string]Intrinsic{}, ExecReal: map[string]bool{},
 		FuncsSeen: map[string]bool{}, Stubs: map[string]bool{}, Assumptions: map[string]bool{}, SliceCap: 8, ChanSlots: 3,
-		ghost: map[string]Value{}, spawned: map[string]*Gor{}, MaxSteps: 64, rangeStates: map[*Object]*rangeState{}, canon: map[string]*Object{}, eventIDs: map[string]int{}}
+		ghost: map[string]Value{}, spawned: map[string]*Gor{}, MaxSteps: 64, rangeStates: map[*Object]*rangeState{}, canon: map[string]*Object{}, eventIDs: map[string]int{}, approxMemo: map[string]T{}, approxBody: map[string]T{}, approxList: map[string][]approxRec{}}
 	m.heap = NewHeap(nil)
 	registerIntrinsics(m)
 	return m
